@@ -149,6 +149,34 @@ func c09(c *Ctx) {
 		}
 		c.Expect(okColon, nil, rf, "pseudo-headers-reserved", "names starting with ':' are not classified as reserved")
 	})
+	c.Ob("value-codec", "R9", "the header-value codec is the identity on non-binary keys and base64 on -bin keys, in both directions: encodeMetadataHeader/decodeMetadataHeader return their value argument itself unless the key has the -bin suffix, in which case they return the result of the binary-header encoder/decoder applied to it", 4, func() {
+		for _, d := range []struct{ fn, bin string }{{"decodeMetadataHeader", "decodeBinHeader"}, {"encodeMetadataHeader", "encodeBinHeader"}} {
+			f := c.fn(tr, d.fn)
+			isBin := Truth(callArgs(CalleeX("strings", "HasSuffix"), ParamV("k"), AnyV), true)
+			notBin := Truth(callArgs(CalleeX("strings", "HasSuffix"), ParamV("k"), AnyV), false)
+			nPlain, nBin := 0, 0
+			for _, r := range returnsOf(f) {
+				if r.Block() == f.Recover {
+					continue
+				}
+				v := r.Results[0]
+				switch {
+				case ParamV("v")(v):
+					nPlain++
+					c.MustFact(r, d.fn+":identity-only-for-non-binary-keys", notBin)
+				case DataDep(CallRes(Callee(tr, d.bin), 0))(v):
+					nBin++
+					c.MustFact(r, d.fn+":base64-only-for-binary-keys", isBin)
+					for _, ci := range callsIn(f, Callee(tr, d.bin)) {
+						c.Expect(DataDep(ParamV("v"))(ci.Common().Args[0]), ci, f, d.fn+":codec-applied-to-the-value", "the binary codec is not applied to the header value")
+					}
+				default:
+					c.Expect(false, r, f, d.fn+":value-unchanged", "a metadata value is altered on its way through the header codec (the result is neither the value itself nor its binary-header encoding)")
+				}
+			}
+			c.Expect(nPlain == 1 && nBin == 1, nil, f, d.fn+":two-arms", "expected the identity arm and the -bin arm")
+		}
+	})
 	c.Ob("validate-first", "R3", "client: outgoing metadata is validated before name resolution / stream creation and a failure returns INTERNAL; server: SetHeader/SendHeader forward to the transport only validated metadata", 6, func() {
 		f := c.fn("grpc", "newClientStream")
 		vMD := IsNil(CallRes(Callee("internal/metadata", "Validate"), 0))
